@@ -424,7 +424,7 @@ func TestC04_MalformedReplies(t *testing.T) {
 	ev.Check(t, c04, func(rt *rapid.T) {
 		rs, err := newRawServer()
 		if err != nil {
-			rt.Fatalf("infrastructure: %v", err)
+			ev.InfraSkip(rt, c04, "%v", err)
 		}
 		defer rs.close()
 		o := rpc.Default()
@@ -488,12 +488,12 @@ func TestC04_MalformedReplies(t *testing.T) {
 		select {
 		case peer = <-rs.peers:
 		case <-time.After(boundArrive()):
-			rt.Fatalf("infrastructure: no raw peer")
+			ev.InfraSkip(rt, c04, "no raw peer")
 		}
 		defer peer.Close()
 		f, ok := rs.next(boundArrive())
 		if !ok || f.Code != netfx.CodeOpen {
-			rt.Fatalf("infrastructure: expected open frame, got %+v", f.Code)
+			ev.InfraSkip(rt, c04, "expected open frame, got %+v", f.Code)
 		}
 		peer.WriteMsg(netfx.CloseMsg(f.ID, reply))
 		select {
